@@ -174,10 +174,10 @@ def classes(case):
 def _atoms():
     num = st.from_regex(r'-?(0|[1-9][0-9]{0,25})(\.[0-9]{1,25})?([eE][+-]?[0-9]{1,4})?', fullmatch=True)
     near = st.text(alphabet=ATOM_ALPHA + list('xyz_{}:,'), min_size=0, max_size=40)
-    quoted = st.text(alphabet=st.sampled_from(list('ab"\\ntu0{}[]/\xe9 ')), max_size=30).map(lambda s: '"' + s + '"')
+    quoted = st.text(alphabet=st.sampled_from(list('ab"\\ntu0{}[]/\xe9\u2028')), max_size=30).map(lambda s: '"' + s + '"')
     words = st.sampled_from(['true', 'false', 'null', 'NaN', 'Infinity', '-Infinity', 'nan', 'inf', '1_000', '0x10',
                              '01', '-', '+1', '1.', '.5', '1e', '--1', '1e400', '-0', '-0.0', '[1]', '{}', '{"a":1}',
-                             '"', '""', '"\\"', 'None', '1e-400', '١٢'])
+                             '"', '""', '"\\"', 'None', '1e-400', '\u0661\u0662'])
     return st.one_of(num, near, quoted, words).filter(lambda a: not any(c in ' \t\r\n\v\f' for c in a))
 
 
